@@ -5,24 +5,6 @@ set_option linter.unusedVariables false
 namespace Pcore.Lat
 variable (cfg : Cfg) (sfh : Bool)
 
-/-- Stage-1 fragment of transitivity: hereditarily none of Unit (two-way assignable by definition), Tuple and Struct (positional /
-    counting rules, and the Struct-from-Hash rule that breaks transitivity), Iterable (no Struct / Enum arm), Data / RichData. -/
-def Ty.TF (t : Ty) : Prop :=
-  match t with
-  | .unit | .data | .richData | .tuple _ _ | .struct _ | .iterable _ => False
-  | .array e _ => Ty.TF e
-  | .hash k v _ => Ty.TF k ∧ Ty.TF v
-  | .variant ts => ∀ t', ∀ (_ : t' ∈ ts), Ty.TF t'
-  | .optional t' | .notUndef t' | .sensitive t' | .typ t' => Ty.TF t'
-  | _ => True
-termination_by t.w
-decreasing_by
-  all_goals simp_wf
-  all_goals (try simp only [Ty.w, Ty.wl, Ty.wm] at *)
-  all_goals first
-    | omega
-    | (have := Ty.w_lt_wl ‹_ ∈ _›; omega)
-
 theorem Ty.TF.noAliasR : ∀ (n : Nat) (t : Ty), t.w ≤ n → t.TF → t.NoAliasR := by
   intro n
   induction n with
